@@ -1,9 +1,9 @@
-LC_HEADER = ('From LC Require Import Lib.Bytes Model.MountInfo Model.FsTree Model.Kernel Model.Layers Cases.LC Cases.C15.\n'
+LC_HEADER = ('From LC Require Import Lib.Bytes Model.MountInfo Model.FsTree Model.Kernel Model.Layers Model.Args Cases.LC Cases.C15.\n'
              'Open Scope string_scope.\n')
 PROP = dict(
     go='c15', n_quick=200, n_thorough=2000,
     coq_header=LC_HEADER,
-    case_type='LC.case', verdict='C15.verdict',
+    case_type='C15.case', verdict='C15.verdict',
     rule='every command kind with -p in unmounted/mounted states followed by the same command for real; non-trivial: the real run mutates',
     explanation='per step Coq evaluates: model step = observed step (result class, operation log, file tree, kernel table, '
                 'layer states) from the observed world before it, and the C15 predicate on the observed worlds',
